@@ -7,7 +7,7 @@ Require Import VParse LicModel LicAuto LicSpec LicLex LicCode SpdxTable.
 Open Scope N_scope.
 
 (* every key is the ASCII lower-casing of its id; keys and ids are ASCII; ids are non-empty and free of whitespace and parentheses;
-   no id is a prefix of "WITH"; no exception key is an operator word or a parenthesis *)
+   no id is a prefix of "WITH"; no exception key is an operator word or a parenthesis, or starts with "licenseref-" *)
 Lemma spdx_table_ok : table_ok licenses exceptions = true.
 Proof. vm_compute. reflexivity. Qed.
 
@@ -29,13 +29,13 @@ Proof. destruct spdx_keys_distinct. split; now apply distinctb_NoDup. Qed.
 Lemma spdx_licenses_entries k id : In (k, id) licenses ->
   k = afold id /\ forallb asciib id = true /\ is_word id = true /\ prefixb id W_WITH = false.
 Proof.
-  intros H. pose proof spdx_table_ok as T. unfold table_ok in T. apply andb_true_iff in T as [T _]. apply andb_true_iff in T as [T _].
+  intros H. pose proof (TOK_l _ _ spdx_table_ok) as T.
   rewrite forallb_forall in T. destruct (entry_ok_inv _ (T _ H)) as (A & _ & B & C & D). auto.
 Qed.
 Lemma spdx_exceptions_entries k id : In (k, id) exceptions ->
   k = afold id /\ forallb asciib id = true /\ is_word id = true /\ prefixb id W_WITH = false /\ is_opword k = false.
 Proof.
-  intros H. pose proof spdx_table_ok as T. unfold table_ok in T. apply andb_true_iff in T as [T O]. apply andb_true_iff in T as [_ T].
+  intros H. pose proof (TOK_e _ _ spdx_table_ok) as T. pose proof (TOK_o _ _ spdx_table_ok) as O.
   rewrite forallb_forall in T, O. destruct (entry_ok_inv _ (T _ H)) as (A & _ & B & C & D). specialize (O _ H). cbn in O.
   apply negb_true_iff in O. auto.
 Qed.
